@@ -9,7 +9,7 @@ import logging
 from itertools import count
 from typing import Union
 
-from happysimulator.core.event import Event
+from happysimulator.core.event import Event, _first_unused_global_sort_index
 from happysimulator.core.temporal import Instant
 from happysimulator.instrumentation.recorder import NullTraceRecorder, TraceRecorder
 
@@ -53,12 +53,16 @@ class EventHeap:
         Events created before the run draw their sort index from the global
         counter, events created during it from this heap's counter.  Starting
         the latter at zero would let an event created during the run overtake
-        same-instant events that were created (and scheduled) earlier, breaking
-        the FIFO-by-creation tie-break.
+        same-instant events that were created earlier, breaking the
+        FIFO-by-creation tie-break.  The floor also covers events that were
+        built before the run but are handed to the engine only during it
+        (returned by a handler later): they are not pending yet, so the
+        global counter is consulted as well.
         """
+        floor = _first_unused_global_sort_index()
         if self._heap:
-            floor = max(event._sort_index for event in self._heap) + 1
-            self._event_counter = count(max(floor, next(self._event_counter)))
+            floor = max(floor, max(event._sort_index for event in self._heap) + 1)
+        self._event_counter = count(max(floor, next(self._event_counter)))
 
     def set_current_time(self, time: Instant) -> None:
         """Update the current simulation time for accurate trace timestamps."""
